@@ -35,12 +35,13 @@ import (
 )
 
 type hint struct {
-	K string `json:"k"` // hint key name
-	T int    `json:"t"` // 0 int, 1 string, 2 bool, 3 ErrorCorrectionLevel, 4 SymbolShapeHint, 5 *Dimension
-	I int    `json:"i"` // int / bool / enum value (t = 3: 0..3 = L M Q H, anything else = the raw enum value)
-	S []int  `json:"s"` // string bytes
-	A int    `json:"a"` // Dimension width
-	B int    `json:"b"` // Dimension height
+	K  string `json:"k"`  // hint key name
+	T  int    `json:"t"`  // 0 int, 1 string, 2 bool, 3 ErrorCorrectionLevel, 4 SymbolShapeHint, 5 *Dimension, 6 int i + a * symbol width
+	I  int    `json:"i"`  // int / bool / enum value (t = 3: 0..3 = L M Q H, anything else = the raw enum value)
+	S  []int  `json:"s"`  // string bytes
+	Sn string `json:"sn"` // the same string as text (for the reader of the trace; not used here)
+	A  int    `json:"a"`  // Dimension width
+	B  int    `json:"b"`  // Dimension height
 }
 
 type ev struct {
@@ -139,6 +140,8 @@ func hintMap(hs []hint, bare bool) (map[gozxing.EncodeHintType]interface{}, erro
 		switch h.T {
 		case 0:
 			m[k] = h.I
+		case 6:
+			m[k] = 0 // resolved after the bare call
 		case 1:
 			m[k] = str(h.S)
 		case 2:
@@ -239,13 +242,18 @@ func observe(e *ev, bound time.Duration) error {
 	if err != nil {
 		return err
 	}
-	hm, err := hintMap(e.Hints, false)
-	if err != nil {
-		return err
-	}
 	b := call(wr, c, gozxing.BarcodeFormat(e.Fmt), 0, 0, bm, bound)
 	if b.mat == 1 && b.err == 0 && b.panicked == 0 && b.hang == 0 {
 		e.Sok, e.Sw, e.Sh = 1, b.w, b.h
+	}
+	for i := range e.Hints { // an int hint given relative to the symbol width becomes a plain int
+		if e.Hints[i].T == 6 {
+			e.Hints[i].T, e.Hints[i].I, e.Hints[i].A = 0, e.Hints[i].I+e.Hints[i].A*e.Sw, 0
+		}
+	}
+	hm, err := hintMap(e.Hints, false)
+	if err != nil {
+		return err
 	}
 	if b.hang == 1 { // the stuck goroutine stays behind: report it on the call itself, the parent restarts the worker
 		e.Hang, e.Msg, e.Ms = 1, "bare call: "+b.msg, b.ms
@@ -516,6 +524,9 @@ func fix(e *ev) {
 	for i := range e.Hints {
 		if e.Hints[i].S == nil {
 			e.Hints[i].S = []int{}
+		}
+		if e.Hints[i].T == 6 { // the symbol width is not known when the worker did not answer
+			e.Hints[i].T, e.Hints[i].A = 0, 0
 		}
 	}
 }
